@@ -112,6 +112,9 @@ func init() {
 
 func runC34(op string) string {
 	f := strings.Fields(op)
+	if len(f) == 5 && f[0] == "pair" {
+		return runC34Pair(f)
+	}
 	if len(f) != 4 || f[0] != "mut" || (f[2] != "0" && f[2] != "1") {
 		return "bad-op"
 	}
@@ -134,6 +137,72 @@ func runC34(op string) string {
 	skip := f[2] == "1"
 	verdict := c34Decode(fx, data, skip)
 	return verdict + " ;; " + c34Facts(fx, orig, data, skip)
+}
+
+// pair <fixture> <skip> <splicesA> <splicesB>: two variants of one block. The property's own
+// shape: two blocks with the same header bytes and different committed body content must not
+// both be accepted with validation on.
+func runC34Pair(f []string) string {
+	if f[2] != "0" && f[2] != "1" {
+		return "bad-op"
+	}
+	fx := c34Find(f[1])
+	if fx == nil {
+		return "bad-op"
+	}
+	orig, err := fx.load()
+	if err != nil {
+		return "bad-op fixture unreadable: " + err.Error()
+	}
+	spA, ok1 := c34ParseSplices(f[3])
+	spB, ok2 := c34ParseSplices(f[4])
+	if !ok1 || !ok2 {
+		return "bad-op"
+	}
+	a, ok1 := c34Apply(orig, spA)
+	b, ok2 := c34Apply(orig, spB)
+	if !ok1 || !ok2 {
+		return "bad-op"
+	}
+	skip := f[2] == "1"
+	va, vb := c34Decode(fx, a, skip), c34Decode(fx, b, skip)
+	ia, _, oka := c34Split(a)
+	ib, _, okb := c34Split(b)
+	samehdr, bodydiff := "u", "u"
+	if oka && okb && len(ia) > 0 && len(ib) > 0 {
+		samehdr = yn(string(ia[0]) == string(ib[0]))
+		switch fx.layout {
+		case c34Segwit, c34Dijkstra:
+			bodydiff = yn(!c34EqList(ia[1:], ib[1:]))
+		case c34ByronEbb:
+			if len(ia) >= 2 && len(ib) >= 2 {
+				bodydiff = yn(string(ia[1]) != string(ib[1]))
+			}
+		case c34ByronMain:
+			if len(ia) >= 2 && len(ib) >= 2 {
+				pa, pb := c34ByronParts(ia[1]), c34ByronParts(ib[1])
+				if pa.ok && pb.ok {
+					bodydiff = yn(!c34EqList(pa.bodies, pb.bodies) || !c34EqList(pa.wits, pb.wits) ||
+						string(pa.dlg) != string(pb.dlg) || string(pa.upd) != string(pb.upd))
+				}
+			}
+		}
+	}
+	return c34PairClass(va, vb) + " A=" + va + " B=" + vb + " ;; pair skip=" + yn(skip) + " samehdr=" + samehdr + " bodydiff=" + bodydiff +
+		" ;; " + c34Facts(fx, orig, a, skip) + " ;; " + c34Facts(fx, orig, b, skip)
+}
+
+func c34PairClass(va, vb string) string {
+	oa, ob := strings.HasPrefix(va, "ok "), strings.HasPrefix(vb, "ok ")
+	switch {
+	case oa && ob:
+		return "both-ok"
+	case oa:
+		return "a-only"
+	case ob:
+		return "b-only"
+	}
+	return "neither"
 }
 
 func c34Decode(fx *c34Fixture, data []byte, skip bool) (verdict string) {
@@ -653,6 +722,40 @@ func genC34(r *Rand, n int, tier string, emit func(string)) {
 					break
 				}
 				out(c34Op(s.fx, false, []c34Splice{{a.off, a.end - a.off, append([]byte{}, b.bytes(t.data)...)}}))
+			}
+		}
+	}
+	// 3b. pairs: variant A re-commits the header to the hash over the first k segments only
+	// (k = 1 … n-1), variant B additionally edits one segment. On correct code A is accepted only
+	// for k = n-1 and then B never is; if the code hashed fewer segments than the block has, A
+	// (k = literal-1) and B (edit beyond k) would both be accepted: a concrete witness.
+	for _, s := range sites {
+		fx, d, top := s.fx, s.data, s.top
+		if fx.layout != c34Segwit || len(top.kids[0].kids) == 0 || len(top.kids[0].kids[0].kids) <= fx.bhIdx {
+			continue
+		}
+		bh := top.kids[0].kids[0].kids[fx.bhIdx]
+		if bh.end-bh.off-bh.hl != 32 {
+			continue
+		}
+		var cat []byte
+		for k := 1; k < len(top.kids); k++ {
+			cat = append(cat, c34H(top.kids[k].bytes(d))...)
+			spA := []c34Splice{{bh.off + bh.hl, 32, c34H(cat)}}
+			for j := 1; j < len(top.kids); j++ {
+				seg := top.kids[j]
+				alts := [][]byte{{0x80}, {0x81, 0x00}, {0xa0}, {0x9f, 0xff}}
+				for _, alt := range alts {
+					if string(seg.bytes(d)) == string(alt) {
+						continue
+					}
+					spB := append([]c34Splice{}, spA...)
+					spB = append(spB, c34Splice{seg.off, seg.end - seg.off, alt})
+					out("pair " + fx.name + " 0 " + c34FormatSplices(append([]c34Splice{}, spA...)) + " " + c34FormatSplices(spB))
+				}
+				spB := append([]c34Splice{}, spA...)
+				spB = append(spB, c34Splice{seg.end - 1, 1, []byte{d[seg.end-1] ^ 0x01}})
+				out("pair " + fx.name + " 0 " + c34FormatSplices(append([]c34Splice{}, spA...)) + " " + c34FormatSplices(spB))
 			}
 		}
 	}
